@@ -2,6 +2,7 @@ package checks
 
 import (
 	"context"
+	"errors"
 	"fmt"
 	"strconv"
 	"strings"
@@ -122,6 +123,12 @@ func specResult(root *model.Node, op string) string {
 			sb.WriteString("returned the callback's error")
 		}
 		return sb.String()
+	case "textfail", "jsonfail":
+		return "write-error reported"
+	case "mkdirfail":
+		return "ErrExistPath, nothing created"
+	case "verifyfail":
+		return "verify error"
 	case "json":
 		return f.String()
 	case "dryrun":
@@ -231,6 +238,53 @@ func (t *liveTree) runOp(op, tmp string) string {
 			return "ERR:" + errStr(o.Err) + fmt.Sprint(o.Panic)
 		}
 		return sb.String()
+	case "textfail", "jsonfail":
+		// the writer fails at its first write: the call must report it (and leave nothing behind
+		// that a later operation could see)
+		w := mon.NewRecWriter()
+		w.FailAt = 0
+		var opts []gtree.Option
+		if op == "jsonfail" {
+			opts = append(opts, gtree.WithEncodeJSON())
+		}
+		o := Guard(func() error { return gtree.OutputFromRoot(w, t.root, opts...) })
+		if o.Panic != nil {
+			return "PANIC"
+		}
+		if o.Err != nil {
+			return "write-error reported"
+		}
+		return "nil although the writer failed"
+	case "mkdirfail":
+		j, err := mon.NewJail(tmp, true)
+		if err != nil {
+			return "JAIL"
+		}
+		defer j.Remove()
+		mkdirAll(j.Target + "/" + t.shape.Name)
+		before := j.Snap()
+		o := Guard(func() error { return gtree.MkdirFromRoot(t.root, gtree.WithTargetDir(j.Target)) })
+		if o.Panic != nil {
+			return "PANIC"
+		}
+		if errors.Is(o.Err, gtree.ErrExistPath) && len(mon.Diff(before, j.Snap())) == 0 {
+			return "ErrExistPath, nothing created"
+		}
+		return "ERR:" + errStr(o.Err) + " diff=" + strings.Join(mon.Diff(before, j.Snap()), ",")
+	case "verifyfail":
+		j, err := mon.NewJail(tmp, true)
+		if err != nil {
+			return "JAIL"
+		}
+		defer j.Remove()
+		o := Guard(func() error { return gtree.VerifyFromRoot(t.root, gtree.WithTargetDir(j.Target)) })
+		if o.Panic != nil {
+			return "PANIC"
+		}
+		if o.Err != nil {
+			return "verify error"
+		}
+		return "nil although the directory is empty"
 	case "walkfail":
 		k := t.shape.Size() / 2
 		sentinel := fmt.Errorf("sentinel")
@@ -354,6 +408,9 @@ func runC13(c *Ctx) bool {
 		{[]string{"text"}, L},
 		{[]string{"walk", "iter", "json", "text.b6", "dryrun"}, L - 1},
 		{[]string{"walkfail", "walk", "iterbreak", "iter"}, L - 2}, // an aborted walk, then further walks
+		{[]string{"textfail", "text", "jsonfail", "json"}, L - 2},   // a failed write, then further output
+		{[]string{"iterbreak", "iter", "walk", "text"}, L - 2},      // an abandoned iterator, then further operations
+		{[]string{"mkdirfail", "mkdir", "verifyfail", "verify"}, L - 3},
 		{[]string{"mkdir", "verify"}, L - 2},
 	}
 	for _, ps := range passes {
@@ -425,7 +482,7 @@ func runC13(c *Ctx) bool {
 	return runC13Concurrent(c)
 }
 
-var c13Ops = []string{"text", "text.b3", "text.b6", "walk", "iter", "json", "walkfail", "iterbreak", "dryrun", "mkdir", "verify"}
+var c13Ops = []string{"text", "text.b3", "text.b6", "walk", "iter", "json", "walkfail", "iterbreak", "textfail", "jsonfail", "dryrun", "mkdir", "verify", "mkdirfail", "verifyfail"}
 var c13Names = []string{"a", "b", "c", "x.gz", "d e", "日本"}
 
 func randHistory(r *gen.Rand, n, maxTrees int) []string {
@@ -448,7 +505,7 @@ func randHistory(r *gen.Rand, n, maxTrees int) []string {
 		default:
 			ops := c13Ops
 			if r.Chance(3, 4) {
-				ops = c13Ops[:9]
+				ops = c13Ops[:11]
 			}
 			h = append(h, "O"+strconv.Itoa(r.Intn(trees))+":"+ops[r.Intn(len(ops))])
 		}
@@ -594,7 +651,7 @@ func evalC13Concurrent(c *Ctx, cs *Case) {
 	if !c.Quick() {
 		steps = 150
 	}
-	opsConc := []string{"text", "text.b3", "text.b6", "walk", "iter", "json", "walkfail", "iterbreak", "mkdir", "verify"} // no dry-run: it prints to the process-wide color.Output
+	opsConc := []string{"text", "text.b3", "text.b6", "walk", "iter", "json", "walkfail", "iterbreak", "textfail", "jsonfail", "mkdir", "verify", "mkdirfail", "verifyfail"} // no dry-run: it prints to the process-wide color.Output
 	for g := 0; g < G; g++ {
 		wg.Add(1)
 		go func(g int) {
@@ -624,7 +681,7 @@ func evalC13Concurrent(c *Ctx, cs *Case) {
 				case k <= 9:
 					h := own[r.Intn(len(own))]
 					op := opsConc[r.Intn(len(opsConc))]
-					if op == "mkdir" || op == "verify" {
+					if op == "mkdir" || op == "verify" || op == "mkdirfail" || op == "verifyfail" {
 						if !r.Chance(1, 4) {
 							op = "text"
 						}
